@@ -157,7 +157,7 @@ pub fn run(ctx: &Ctx, reg: &crate::ops::Registry, rep: &mut Report) {
     // (a) steered: every value of every gen_range the implementations call
     let mut plans = Vec::new();
     for (i, op) in reg.for_prop("C19") {
-        let mode = if op.name.starts_with("P32E2") && ctx.quick() {
+        let mode = if op.name == "P32E2::sample_steered" && ctx.quick() {
             // 2^29 (draw, low-bits) combinations: a seed-rotated 1/32 in quick
             Mode::Strided { stride: 32, offset: ctx.seed }
         } else {
